@@ -57,6 +57,15 @@ Section Verify.
       destruct (classify hs hash only x); cbn [cls_eqb vs_new vs_bad map]; rewrite <- ?app_assoc; split; reflexivity.
   Qed.
 
+  Lemma no_bad_without_hash hs only l :
+    map fst (filter (fun x => cls_eqb (classify hs false only x) IsBad) l) = [].
+  Proof.
+    induction l as [|x l IHl]; [reflexivity|]. cbn [filter].
+    assert (Hx : cls_eqb (classify hs false only x) IsBad = false).
+    { unfold classify. destruct (negb _); [reflexivity|]. destruct (reference hs (fst x)); reflexivity. }
+    rewrite Hx. exact IHl.
+  Qed.
+
   (* ---- verify (folder mode) and diff, as total functions of the tree: result in closed form ---- *)
   Record vresult := mkVR { vr_code : Z; vr_missing : list path; vr_mismatch : list path; vr_new : list path }.
   Definition verify_result (is_diff : bool) (t : node) (ipats ifile : list text) : option vresult :=
@@ -240,3 +249,56 @@ Section CreateExit.
     - repeat split; intros; try discriminate; auto 10.
   Qed.
 End CreateExit.
+
+(* C03, "never a false one": a tree that is consistent with its loaded histories -- every visited file's bytes hash to
+   the first original digest recorded for it, and every recorded path is visited or ignored -- verifies with exit 0 and
+   empty reports, whatever formats, patterns or nesting were used *)
+Section Consistent.
+  Variable Hb : fmt -> bytes -> bytes.
+  Variable matches : list text -> text -> bool.
+  Variable C : Type.
+  Variable cdig : C -> text.
+  Definition consistent_tree (hs : list lhist) (t : node C) (spec : list text) : Prop :=
+    (forall p c, In (p, c) (ev_files (events matches C spec [] t)) ->
+       exists e, reference hs p = Some e /\ e_digest e = digest_text Hb (e_fmt e) c) /\
+    missing matches spec (diff_paths (expected_paths hs) (visited (events matches C spec [] t))) = [].
+  Theorem consistent_verifies t hs ipats ifile :
+    load C cdig t = inl hs -> lh_gens (root_hist hs) <> [] ->
+    consistent_tree hs t (set_patterns (latest_patterns (lh_gens (root_hist hs))) ipats (pattern_file_lines ifile)) ->
+    verify_result Hb matches C cdig false t ipats ifile = Some (mkVR 0 [] [] []) /\
+    verify_result Hb matches C cdig true t ipats ifile = Some (mkVR 0 [] [] []).
+  Proof.
+    intros Hl Hg [Hfiles Hmiss].
+    pose proof (verify_reports Hb matches C cdig t ipats ifile hs Hl Hg) as Hrep. cbn zeta in Hrep. destruct Hrep as [Hbad Hnew].
+    assert (Eb : o_mismatch (snd (verify_like Hb matches C cdig false t None ipats ifile)) = []).
+    { destruct (o_mismatch _) as [|p l] eqn:E; [reflexivity|]. exfalso.
+      destruct (proj1 (Hbad p) (or_introl eq_refl)) as [c [e [Hin [Hr Hd]]]].
+      destruct (Hfiles p c Hin) as [e' [Hr' Hd']]. rewrite Hr in Hr'. injection Hr' as <-. contradiction. }
+    assert (En : o_new (snd (verify_like Hb matches C cdig false t None ipats ifile)) = []).
+    { destruct (o_new _) as [|p l] eqn:E; [reflexivity|]. exfalso.
+      destruct (proj1 (Hnew p) (or_introl eq_refl)) as [c [Hin Hr]].
+      destruct (Hfiles p c Hin) as [e' [Hr' _]]. congruence. }
+    unfold verify_result. rewrite Hl. destruct (lh_gens (root_hist hs)) as [|g0 gs] eqn:Eg; [congruence|].
+    unfold verify_like in *. rewrite Hl, Eg in *. cbn [snd o_outcome o_missing o_mismatch o_new] in *.
+    rewrite Hmiss. change (sorted_paths []) with (@nil path).
+    apply (proj1 (sorted_paths_nil _)) in Eb. apply (proj1 (sorted_paths_nil _)) in En.
+    split.
+    - rewrite Eb, En. reflexivity.
+    - (* diff: the same fold without hashing *)
+      destruct (verify_file_fold Hb hs (negb true) None
+                  (ev_files (events matches C (set_patterns (latest_patterns (g0 :: gs)) ipats (pattern_file_lines ifile)) [] t))
+                  (mkVS [] [] false)) as [H1 H2].
+      assert (En' : vs_new (fold_left (verify_file Hb hs (negb true) None)
+                    (ev_files (events matches C (set_patterns (latest_patterns (g0 :: gs)) ipats (pattern_file_lines ifile)) [] t)) (mkVS [] [] false)) = []).
+      { rewrite H1. cbn [vs_new app]. destruct (map fst (filter _ _)) as [|p l] eqn:E; [reflexivity|]. exfalso.
+        assert (Hin : In p (map fst (filter (fun x => cls_eqb (classify Hb hs (negb true) None x) IsNew)
+                   (ev_files (events matches C (set_patterns (latest_patterns (g0 :: gs)) ipats (pattern_file_lines ifile)) [] t))))) by (rewrite E; left; reflexivity).
+        apply in_map_iff in Hin. destruct Hin as [[p0 c] [<- Hin]]. apply filter_In in Hin. destruct Hin as [Hin Hc].
+        unfold classify in Hc. cbn [negb fst snd] in Hc. destruct (Hfiles p0 c Hin) as [e [Hr _]]. rewrite Hr in Hc. discriminate. }
+      assert (Eb' : vs_bad (fold_left (verify_file Hb hs (negb true) None)
+                    (ev_files (events matches C (set_patterns (latest_patterns (g0 :: gs)) ipats (pattern_file_lines ifile)) [] t)) (mkVS [] [] false)) = []).
+      { rewrite H2. cbn [vs_bad app negb].
+        apply no_bad_without_hash. }
+      rewrite En', Eb'. reflexivity.
+  Qed.
+End Consistent.
